@@ -138,13 +138,15 @@ fam(ScenarioFamily('spawn', ('C06', 'C04', 'C05', 'C02'), gen.spawn_scenario, 10
 fam(ScenarioFamily('dupfwd', ('C07',), gen.dupfwd_scenario, 60, 600))
 fam(EnumFamily('stop_enum', ('C16',), gen.stop_base, gen.stop_derive, 12, 200, 40, 150))
 fam(EnumFamily('cancel_enum', ('C16',), gen.stop_base, gen.cancel_derive, 6, 80, 30, 100))
-fam(EnumFamily('timeout_enum', ('C10',), gen.timeout_base, gen.timeout_derive, 14, 250, 40, 150))
+fam(EnumFamily('timeout_enum', ('C10', 'C08'), gen.timeout_base, gen.timeout_derive, 14, 250, 40, 150))
 
 CHECKS['C01'].families.append('recursion')
 CHECKS['C01'].families.append('graphs')
 CHECKS['C03'].families.append('recursion')
 CHECKS['C15'].families.append('recursion')
 CHECKS['C06'].families.append('spawn')
+CHECKS['C08'].families.append('timeout_enum')
+CHECKS['C08'].families.append('recursion')
 
 chk(Check('C07', 'exploration', ['graphs', 'forward', 'dupfwd'],
           {'c07_forwarded_events': {'quick': 800, 'thorough': 15000}},
